@@ -209,29 +209,50 @@ func (w *World) userBody(ui int) {
 	}
 }
 
-// userCount calls CountConnections and compares it with the window of values
-// the harness count took during the call.
+// userCount calls CountConnections and compares it with opened-closed when
+// nothing moved while the call ran. Several application tasks may be inside
+// the call at once: each has its own watch.
 func (w *World) userCount() {
 	if !w.booted || w.runDone {
 		return
 	}
-	w.countLo, w.countHi = w.openedN-w.closedN, w.openedN-w.closedN
-	w.countWatch = true
+	cw := &countWatch{lo: w.openedN - w.closedN, hi: w.openedN - w.closedN}
+	pendingBefore := w.pendingRegs()
+	for _, v := range w.loopTasks {
+		pendingBefore += v
+	}
+	w.countWatchers = append(w.countWatchers, cw)
 	n := w.eng.CountConnections()
-	w.countWatch = false
-	w.logf("CountConnections=%d window=[%d,%d]", n, w.countLo, w.countHi)
-	if n == -1 && (w.stopRequested || w.runDone) {
+	for i, x := range w.countWatchers {
+		if x == cw {
+			w.countWatchers = append(w.countWatchers[:i], w.countWatchers[i+1:]...)
+			break
+		}
+	}
+	w.logf("CountConnections=%d window=[%d,%d] moved=%v", n, cw.lo, cw.hi, cw.moved)
+	if n == -1 && (w.stopRequested || w.runDone || w.stopEverAsked) {
 		return
 	}
-	// callbacks in flight may be one ahead or behind: registration precedes OnOpen, OnClose follows removal
+	// the call sums per-loop counters one after the other: it is only comparable
+	// with opened-closed when nothing moved while it ran (no open or close, no
+	// callback in flight, no connection between accept and OnOpen)
 	inflight := 0
 	for _, v := range w.loopTasks {
 		inflight += v
 	}
-	lo, hi := w.countLo-inflight-w.pendingRegs(), w.countHi+inflight+w.pendingRegs()
-	if n < lo || n > hi {
-		w.violate("C04", "count", "CountConnections()=%d while opened-closed stayed within [%d,%d] (callbacks in flight: %d)", n, w.countLo, w.countHi, inflight)
+	if cw.moved || inflight > 0 || w.pendingRegs() > 0 || pendingBefore > 0 {
+		w.probes["count-calls-overlapping-changes"]++
+		return
 	}
+	w.probes["count-calls-exact"]++
+	if n != cw.lo {
+		w.violate("C04", "count", "CountConnections()=%d with nothing in flight while %d connections have been opened and not closed", n, cw.lo)
+	}
+}
+
+type countWatch struct {
+	lo, hi int
+	moved  bool
 }
 
 // pendingRegs: connections accepted by the kernel whose OnOpen has not run yet
@@ -247,9 +268,10 @@ func (w *World) pendingRegs() int {
 }
 
 func (w *World) countChanged() {
-	if w.countWatch {
-		c := w.openedN - w.closedN
-		w.countLo, w.countHi = min(w.countLo, c), max(w.countHi, c)
+	c := w.openedN - w.closedN
+	for _, cw := range w.countWatchers {
+		cw.moved = true
+		cw.lo, cw.hi = min(cw.lo, c), max(cw.hi, c)
 	}
 }
 
